@@ -21,6 +21,8 @@ def run(chk):
     for _ in range(60 if thorough else 14):
         case = case_for_c02(rng)
         case['iters'] = min(case['iters'], 150 if thorough else 80)
+        if _ % 3 == 1:      # the objective fails at a few evaluations; the caller catches the exception and goes on
+            case['fail_at'] = sorted(rng.sample(range(3, max(6, case['iters'])), 3)); case['eps'] = 1e-9
         if _ % 3 == 2:      # refinement early in the search, then the search goes on
             case['refine_at'] = rng.choice([2, 4, 8]); case['eps'] = 1e-9
             if _ % 2 == 0:
